@@ -152,7 +152,8 @@ class Ctx:
         if c < MAX_WITNESSES_PER_MECH:
             self.violations.append({
                 "property": self.prop, "monitor": monitor, "mech": mech, "class": cls,
-                "seed": self.seed, "shard": self.shard, "tier": self.tier,
+                "seed": self.seed, "shard": self.shard, "tier": self.tier, "optimize": sys.flags.optimize,
+                "no_ossl_ripemd": os.environ.get("VP_NO_OSSL_RIPEMD") == "1", "extra_env": os.environ.get("VP_EXTRA_ENV", ""),
                 "case": jz(case), "expected": jz(expected), "observed": jz(observed),
                 "note": note,
             })
